@@ -75,6 +75,7 @@ type Unit struct {
 	nilChecked map[int][]*Term
 	caseTag    string
 	caseCond   *Term
+	loopFirst  [][2]*Term
 }
 
 func (e *Engine) NewUnit(fn *ssa.Function, bc *BoundContract) *Unit {
